@@ -468,3 +468,255 @@ Proof.
   - rewrite Nat.sub_0_r. replace (n * (k * cs)) with (k * n * cs) by ring.
     rewrite <- (Nat.mul_1_r (k * n)) at 1. apply Nat.mul_le_mono_l. exact Hcs.
 Qed.
+
+
+(* ---------- several readers alive at the same time ---------- *)
+Lemma upd_length {A} (x : A) : forall l k, length (upd k x l) = length l.
+Proof. induction l as [|y l IH]; intros [|k]; cbn; auto. Qed.
+
+Lemma nth_error_upd_same {A} (x : A) : forall l k y, nth_error l k = Some y -> nth_error (upd k x l) k = Some x.
+Proof. induction l as [|z l IH]; intros [|k] y; cbn; try discriminate; auto. apply IH. Qed.
+
+Lemma nth_error_upd_other {A} (x : A) : forall l j k, j <> k -> nth_error (upd j x l) k = nth_error l k.
+Proof.
+  induction l as [|z l IH]; intros [|j] [|k] H; cbn; try reflexivity; try congruence.
+  apply IH. congruence.
+Qed.
+
+Section WorldP.
+  Context {St Rq : Type}.
+  Context (init : nat -> St) (next : nat -> St -> option (St * Rq)) (rewinds : nat -> St -> bool) (fuel : nat -> nat).
+  Notation wstep := (w_step init next rewinds fuel).
+  Notation wtrace := (w_trace init next rewinds fuel).
+  Notation wstate := (w_state init next rewinds fuel).
+  Notation sstep := (slot_step init next rewinds fuel).
+  Notation strace := (slot_trace init next rewinds fuel).
+  Notation sstate := (slot_state init next rewinds fuel).
+
+  (* frame: an operation on another reader leaves reader k as it is *)
+  Theorem w_step_other w o k : fst o <> k -> nth_error (fst (wstep w o)) k = nth_error w k.
+  Proof.
+    intros H. unfold w_step. destruct (nth_error w (fst o)) as [s|]; [|reflexivity].
+    destruct (sstep (fst o) s (snd o)) as [s1 q]. cbn [fst]. apply nth_error_upd_other. exact H.
+  Qed.
+
+  (* an operation on reader k is the step of reader k alone *)
+  Theorem w_step_same w o s : nth_error w (fst o) = Some s ->
+    nth_error (fst (wstep w o)) (fst o) = Some (fst (sstep (fst o) s (snd o)))
+    /\ snd (wstep w o) = snd (sstep (fst o) s (snd o)).
+  Proof.
+    intros H. unfold w_step. rewrite H. destruct (sstep (fst o) s (snd o)) as [s1 q]. cbn [fst snd].
+    split; [|reflexivity]. eapply nth_error_upd_same. exact H.
+  Qed.
+
+  (* non-interference: whatever the interleaving, what reader k delivers is what it delivers when run alone on the
+     operations addressed to it - and it ends in the same state *)
+  Theorem world_stream_alone k : forall ops w s, nth_error w k = Some s ->
+    outs_of k ops (wtrace w ops) = strace k s (proj k ops)
+    /\ nth_error (wstate w ops) k = Some (sstate k s (proj k ops)).
+  Proof.
+    induction ops as [|o ops IH]; intros w s H; [split; [reflexivity|exact H]|].
+    unfold outs_of, proj in *. cbn [w_trace w_state].
+    destruct (wstep w o) as [w1 q] eqn:E. cbn [fst combine filter map].
+    destruct (Nat.eqb_spec (fst o) k) as [<-|N].
+    - destruct (w_step_same w o s H) as [S1 S2]. rewrite E in S1, S2. cbn [fst snd] in S1, S2.
+      cbn [map snd slot_trace slot_state].
+      destruct (sstep (fst o) s (snd o)) as [s1 q1] eqn:E1. cbn [fst snd] in *. subst q1.
+      destruct (IH w1 s1 S1) as [I1 I2]. split; [f_equal; exact I1|exact I2].
+    - pose proof (w_step_other w o k N) as F. rewrite E in F. cbn [fst] in F.
+      apply IH. rewrite F. exact H.
+  Qed.
+End WorldP.
+
+(* --- the readers of the library in a world --- *)
+Lemma skipn_seq' a : forall s n, skipn a (seq s n) = seq (s + a) (n - a).
+Proof.
+  induction a as [|a IH]; intros s n; [rewrite Nat.add_0_r, Nat.sub_0_r; reflexivity|].
+  destruct n as [|n]; [reflexivity|]. cbn [seq skipn]. rewrite IH. f_equal; lia.
+Qed.
+Lemma firstn_seq' k : forall s n, k <= n -> firstn k (seq s n) = seq s k.
+Proof.
+  induction k as [|k IH]; intros s n H; [reflexivity|].
+  destruct n as [|n]; [lia|]. cbn [seq firstn]. rewrite IH by lia. reflexivity.
+Qed.
+Lemma sub_seq a b n : a <= b -> b <= n -> sub (a, b) (seq 0 n) = seq a (b - a).
+Proof.
+  intros H1 H2. unfold sub. cbn [fst snd]. rewrite skipn_seq', firstn_seq' by lia. reflexivity.
+Qed.
+
+Lemma chunks_seq n cs : 1 <= cs -> chunks cs (seq 0 n) = map range (slices n cs).
+Proof.
+  intros Hcs. unfold chunks. rewrite seq_length. apply map_ext_in. intros [a b] Hin.
+  pose proof (slices_bound n cs Hcs) as B. rewrite Forall_forall in B. specialize (B _ Hin).
+  unfold slice_len in B. cbn [fst snd] in B. unfold range. cbn [fst snd]. apply sub_seq; lia.
+Qed.
+
+Lemma u_off_nexts ids n cs fuel : forall s a (b c : list (list nat)),
+  map snd (snd (rd_nexts (u_next (COff ids n cs)) fuel (s, a, b, c))) = map range (slices_from fuel s n cs)
+  /\ map fst (snd (rd_nexts (u_next (COff ids n cs)) fuel (s, a, b, c))) = map (fun _ => []) (slices_from fuel s n cs).
+Proof.
+  induction fuel as [|f IH]; intros s a b c; cbn [rd_nexts slices_from]; [split; reflexivity|].
+  cbn [u_next]. unfold off_next. destruct (n <=? s); [split; reflexivity|].
+  specialize (IH (s + cs) 0 [] []).
+  destruct (rd_nexts (u_next (COff ids n cs)) f (s + cs, 0, [], [])) as [st2 rs].
+  cbn [snd map fst] in *. destruct IH as [I1 I2]. rewrite I1, I2. split; reflexivity.
+Qed.
+
+(* from ANY state a complete pass of a reader delivers the chunks of its own source, whatever its kind *)
+Theorem u_pass_any_state c st : 1 <= u_cs c ->
+  map snd (snd (rd_step (u_init c) (u_next c) rewinds_always (u_n c) st RdPass)) = chunks (u_cs c) (u_rows c).
+Proof.
+  intros Hcs. rewrite rd_pass_always. destruct c as [ids n cs|cs g]; cbn [u_init u_n u_cs u_rows] in *.
+  - rewrite chunks_seq by exact Hcs. apply u_off_nexts.
+  - cbn [u_next]. unfold pq_init. rewrite <- parquet_chunks_eq. apply pq_nexts_model.
+Qed.
+
+(* one reader through its life (opened, used, closed, opened again): every complete pass delivers exactly the chunks of
+   its source (a closed reader delivers nothing) *)
+Theorem u_slot_every_pass c : 1 <= u_cs c -> forall ops s,
+  Forall2 (fun o q => o = LDo RdPass -> q = [] \/ map snd q = chunks (u_cs c) (u_rows c)) ops
+          (slot_trace (fun _ => u_init c) (fun _ => u_next c) (fun _ : nat => rewinds_always) (fun _ => u_n c) 0 s ops).
+Proof.
+  intros Hcs. induction ops as [|o ops IH]; intros s; cbn [slot_trace]; [constructor|].
+  destruct (slot_step _ _ _ _ 0 s o) as [s1 q] eqn:E. constructor; [|apply IH].
+  intros ->. destruct s as [st|]; cbn [slot_step] in E.
+  - pose proof (u_pass_any_state c st Hcs) as P.
+    destruct (rd_step (u_init c) (u_next c) rewinds_always (u_n c) st RdPass) as [st1 q1].
+    cbn [snd] in P. inversion E; subst. right. exact P.
+  - inversion E. left. reflexivity.
+Qed.
+
+(* the same machine, whichever index it has in the world *)
+Lemma slot_trace_ext {St Rq} (i1 i2 : nat -> St) (n1 n2 : nat -> St -> option (St * Rq)) r1 r2 f1 f2 k1 k2 :
+  i1 k1 = i2 k2 -> (forall st, n1 k1 st = n2 k2 st) -> (forall st, r1 k1 st = r2 k2 st) -> f1 k1 = f2 k2 ->
+  forall ops s, slot_trace i1 n1 r1 f1 k1 s ops = slot_trace i2 n2 r2 f2 k2 s ops.
+Proof.
+  intros Hi Hn Hr Hf. assert (N : forall j st, rd_nexts (n1 k1) j st = rd_nexts (n2 k2) j st).
+  { induction j as [|j IH]; intros st; cbn [rd_nexts]; [reflexivity|]. rewrite Hn.
+    destruct (n2 k2 st) as [[st1 r]|]; [|reflexivity]. rewrite IH. reflexivity. }
+  assert (S : forall s o, slot_step i1 n1 r1 f1 k1 s o = slot_step i2 n2 r2 f2 k2 s o).
+  { intros s o. destruct o as [| |op]; cbn [slot_step]; [rewrite Hi; reflexivity|reflexivity|].
+    destruct s as [st|]; [|reflexivity].
+    destruct op as [|j|]; cbn [rd_step]; unfold rd_iter; rewrite ?Hr, ?Hi, ?Hf, ?N; reflexivity. }
+  induction ops as [|o ops IH]; intros s; cbn [slot_trace]; [reflexivity|].
+  rewrite S. destruct (slot_step i2 n2 r2 f2 k2 s o) as [s1 q]. rewrite IH. reflexivity.
+Qed.
+
+Lemma Forall2_weaken {A B} (P Q : A -> B -> Prop) : (forall a b, P a b -> Q a b) ->
+  forall l1 l2, Forall2 P l1 l2 -> Forall2 Q l1 l2.
+Proof. intros H l1 l2 F. induction F; constructor; auto. Qed.
+
+(* THE statement for several readers: under ANY interleaving of operations on the readers of a world, the stream of
+   reader k is its stream when run alone *)
+Theorem world_reader_alone cfgs k : forall ops w s, nth_error w k = Some s ->
+  outs_of k ops (uw_trace cfgs w ops) = u_slot_trace (cfg_at cfgs k) s (proj k ops).
+Proof.
+  intros ops w s H. unfold uw_trace, u_slot_trace.
+  rewrite (proj1 (world_stream_alone _ _ _ _ k ops w s H)).
+  apply slot_trace_ext; reflexivity.
+Qed.
+
+(* ... hence every complete pass of every reader delivers every record of its own source once, in order, in chunks of at
+   most its own chunk size - whatever the other readers do in between *)
+Theorem world_every_pass cfgs k : 1 <= u_cs (cfg_at cfgs k) -> forall ops w s, nth_error w k = Some s ->
+  Forall2 (fun o q => o = LDo RdPass ->
+             q = [] \/ (concat (map snd q) = u_rows (cfg_at cfgs k)
+                        /\ Forall (fun ch => length ch <= u_cs (cfg_at cfgs k)) (map snd q)))
+          (proj k ops) (outs_of k ops (uw_trace cfgs w ops)).
+Proof.
+  intros Hcs ops w s H. rewrite (world_reader_alone cfgs k ops w s H).
+  eapply Forall2_weaken; [|apply u_slot_every_pass; exact Hcs].
+  intros o q P E. destruct (P E) as [->|Q]; [left; reflexivity|right]. rewrite Q. split.
+  - apply chunks_concat. exact Hcs.
+  - eapply Forall_impl; [|apply chunks_bound; exact Hcs]. intros ch B. apply B.
+Qed.
+
+(* ---------- the variant with ONE row-group cache for all Parquet readers ---------- *)
+(* while only ONE reader is used (any history of peeks, restarts, partial and complete passes) the variant cannot be told
+   from the code: the shared cache is then that reader's own cache *)
+Section SharedP.
+  Context {A : Type} (cfg : nat -> nat * list (list A)) (k : nat).
+  Notation n := (sh_n cfg k).
+  Notation cs := (fst (cfg k)).
+  Notation groups := (snd (cfg k)).
+
+  Definition sh_rel (w : sh_world A) (st : pq_state A) : Prop :=
+    exists s off file, st = (s, off, fst w, file) /\ nth_error (snd w) k = Some (s, off, file).
+
+  Lemma sh_nexts_sim : forall j w st, sh_rel w st ->
+    snd (rd_nexts (sh_next cfg k) j w) = snd (rd_nexts (pq_next n cs) j st)
+    /\ sh_rel (fst (rd_nexts (sh_next cfg k) j w)) (fst (rd_nexts (pq_next n cs) j st)).
+  Proof.
+    induction j as [|j IH]; intros w st R; cbn [rd_nexts]; [split; [reflexivity|exact R]|].
+    destruct R as (s & off & file & -> & H). unfold sh_next at 1 3. rewrite H.
+    destruct (pq_next n cs (s, off, fst w, file)) as [[[[[s1 off1] cache1] file1] out]|] eqn:E.
+    - assert (R1 : sh_rel (cache1, upd k (s1, off1, file1) (snd w)) (s1, off1, cache1, file1)).
+      { exists s1, off1, file1. split; [reflexivity|]. cbn [snd]. eapply nth_error_upd_same. exact H. }
+      destruct (IH _ _ R1) as [I1 I2].
+      destruct (rd_nexts (sh_next cfg k) j (cache1, upd k (s1, off1, file1) (snd w))) as [w2 rs].
+      destruct (rd_nexts (pq_next n cs) j (s1, off1, cache1, file1)) as [st2 rs'].
+      cbn [fst snd] in *. subst rs'. split; [reflexivity|exact I2].
+    - cbn [fst snd]. split; [reflexivity|]. exists s, off, file. split; [reflexivity|exact H].
+  Qed.
+
+  Lemma sh_rewind_rel w st : sh_rel w st -> sh_rel (sh_rewind cfg k w) (pq_init groups).
+  Proof.
+    intros (s & off & file & _ & H). exists 0, 0, groups. split; [reflexivity|].
+    unfold sh_rewind. cbn [snd]. eapply nth_error_upd_same. exact H.
+  Qed.
+
+  Lemma sh_step_sim w st op : sh_rel w st ->
+    snd (sh_step cfg w (k, op)) = snd (rd_step (pq_init groups) (pq_next n cs) rewinds_always n st op)
+    /\ sh_rel (fst (sh_step cfg w (k, op))) (fst (rd_step (pq_init groups) (pq_next n cs) rewinds_always n st op)).
+  Proof.
+    intros R. destruct op as [|j|]; unfold sh_step; cbn [fst snd rd_step]; unfold rd_iter, rewinds_always.
+    - split; [reflexivity|]. eapply sh_rewind_rel. exact R.
+    - apply sh_nexts_sim. exact R.
+    - apply sh_nexts_sim. eapply sh_rewind_rel. exact R.
+  Qed.
+
+  Theorem shared_alone_same : forall ops w st, sh_rel w st -> Forall (fun o => fst o = k) ops ->
+    sh_trace cfg w ops = rd_trace (pq_init groups) (pq_next n cs) rewinds_always n st (map snd ops).
+  Proof.
+    induction ops as [|[k' op] ops IH]; intros w st R F; [reflexivity|].
+    inversion F as [|? ? Hk F']; subst. cbn [fst] in Hk. subst k'.
+    cbn [sh_trace map snd rd_trace].
+    destruct (sh_step_sim w st op R) as [S1 S2].
+    destruct (sh_step cfg w (k, op)) as [w1 q]. 
+    destruct (rd_step (pq_init groups) (pq_next n cs) rewinds_always n st op) as [st1 q'].
+    cbn [fst snd] in *. subst q'. f_equal. apply IH; assumption.
+  Qed.
+End SharedP.
+
+(* ... but with two readers in lock-step it is false: each reader, asked alone, delivers its file; interleaved, reader 1
+   receives records of file 0 and reader 0 never delivers them *)
+Theorem shared_buffer_refuted :
+  exists ops : list (nat * rd_op),
+    sh_stream 0 (ops_of 0 ops) = concat (snd (sh_example 0)) /\ sh_stream 1 (ops_of 1 ops) = concat (snd (sh_example 1))
+    /\ In 4 (sh_stream 1 ops) /\ ~ In 4 (sh_stream 0 ops) /\ length (sh_stream 0 ops) < 10.
+Proof.
+  exists [(0, RdNext 1); (1, RdNext 1); (0, RdNext 1); (1, RdNext 1); (0, RdNext 1); (1, RdNext 1)].
+  vm_compute. repeat split; try reflexivity; lia.
+Qed.
+
+(* and merely restarting (or constructing) another reader while reader 0 is in the middle of a pass loses the records
+   reader 0 had requested and not yet delivered *)
+Theorem shared_buffer_restart_refuted :
+  exists ops : list (nat * rd_op),
+    Forall (fun o => fst o = 0 \/ snd o = RdIter) ops
+    /\ sh_stream 0 (ops_of 0 ops) = concat (snd (sh_example 0))
+    /\ ~ In 4 (sh_stream 0 ops) /\ ~ In 5 (sh_stream 0 ops).
+Proof.
+  exists [(0, RdNext 1); (1, RdIter); (0, RdNext 2)].
+  split; [constructor; [left; reflexivity|constructor; [right; reflexivity|constructor; [left; reflexivity|constructor]]]|].
+  vm_compute. repeat split; try reflexivity; lia.
+Qed.
+
+Corollary shared_alone_same_pq {A} (cfg : nat -> nat * list (list A)) k ops w s off file :
+  nth_error (snd w) k = Some (s, off, file) -> Forall (fun o => fst o = k) ops ->
+  sh_trace cfg w ops
+  = rd_trace (pq_init (snd (cfg k))) (pq_next (sh_n cfg k) (fst (cfg k))) rewinds_always (sh_n cfg k)
+             (s, off, fst w, file) (map snd ops).
+Proof.
+  intros H F. apply shared_alone_same; [|exact F]. exists s, off, file. split; [reflexivity|exact H].
+Qed.
